@@ -185,7 +185,9 @@ where
                     // space left => add to top k
                     #[cfg(feature = "verif_hooks")]
                     crate::verif::hit(crate::verif::Event::HeapRoom);
-                    debug_assert!(count == 1);
+                    // the sketch may overestimate (hash collisions), so `count` can be larger
+                    // than 1 for a first-seen element
+                    debug_assert!(count >= 1);
                     v.insert(1);
                     self.tree.insert(TreeEntry {
                         obj: Rc::clone(&rc),
